@@ -114,7 +114,14 @@ pub fn gen_val(r: &mut Rng, k: Kind) -> OptVal {
             OptVal::IpList((0..n).map(|_| ip(r)).collect())
         }
         Kind::Ip => OptVal::Ip(ip(r)),
-        Kind::Str => OptVal::Str(r.pick(&["alpha", "beta", "gamma.example", "x", "VPN"]).to_string()),
+        Kind::Str => {
+            if r.chance(1, 5) {
+                // long values: replies of 600..900 octets
+                OptVal::Str(format!("{}.example", "v".repeat(r.range(120, 240) as usize)))
+            } else {
+                OptVal::Str(r.pick(&["alpha", "beta", "gamma.example", "x", "VPN"]).to_string())
+            }
+        }
         Kind::U8 => OptVal::U8(r.u8()),
         Kind::U16 => OptVal::U16(*r.pick(&[576u16, 1280, 1500, 9000, 65_535])),
         Kind::I32 => OptVal::I32(*r.pick(&[0i32, 3600, -3600, i32::MAX, i32::MIN])),
